@@ -606,7 +606,7 @@ std::string drive(const char* tag, uint16_t port, int rounds, const std::string&
         // (read before the fresh connections take the same descriptor numbers and release them again)
         if (g_log.count('D') >= conns)
         {
-            std::this_thread::sleep_for(std::chrono::milliseconds(behaviours.find_first_of("tMOYP") != std::string::npos ? 450 : 10));
+            std::this_thread::sleep_for(std::chrono::milliseconds(behaviours.find_first_of("tMOYP") != std::string::npos ? 750 : 10));
             tables_max = std::max(tables_max, table_entries());
         }
         size_t n = std::min<size_t>(ts.size(), 8);
@@ -616,7 +616,7 @@ std::string drive(const char* tag, uint16_t port, int rounds, const std::string&
     for (int k = 0; k < 800 && g_log.count('D') < conns; ++k)
         std::this_thread::sleep_for(std::chrono::milliseconds(5));
     // disarmed response timers (300 ms) have fired by then
-    std::this_thread::sleep_for(std::chrono::milliseconds(behaviours.find_first_of("tMOYP") != std::string::npos ? 450 : 80));
+    std::this_thread::sleep_for(std::chrono::milliseconds(behaviours.find_first_of("tMOYP") != std::string::npos ? 750 : 80));
     for (int k = 0; k < 400 && g_late_running.load() > 0; ++k)
         std::this_thread::sleep_for(std::chrono::milliseconds(5));
     int end = count_fds();
